@@ -29,7 +29,7 @@ Proof.
       destruct (rev (q :: qs)) as [|x xs] eqn:Er.
       { exfalso. apply (f_equal (@length _)) in Er. rewrite rev_length in Er. discriminate. }
       destruct (Nat.ltb 3 (length (trim_space p0))); [reflexivity|]. destruct (atoi (trim_space p0)); [|reflexivity].
-      rewrite slice_to_app1. cbn [bind]. rewrite parse_hms_c_ok. cbn [bind]. rewrite <- Er, rev_involutive. reflexivity.
+      rewrite slice_to_pred_app1. cbn [bind]. rewrite parse_hms_c_ok. cbn [bind]. rewrite <- Er, rev_involutive. reflexivity.
 Qed.
 Theorem parse_duration_c_no_panic s sep k p : parse_duration_c s sep k <> Panic p.
 Proof. rewrite parse_duration_c_ok. discriminate. Qed.
